@@ -192,6 +192,7 @@ class Ex:
             self.ghost: dict = {}
             self.scope = Scope()
             self.held = []
+            self._iterating = []
             self._decided = {}
             self.stats.paths += 1
             try:
@@ -685,6 +686,18 @@ class Ex:
         return nv
 
     def st_For(self, s):
+        # a loop that walks a collection by reference (no copy): changing that very collection inside the body makes the
+        # iterator skip or repeat elements (list) or raise RuntimeError (set / dict) - an obligation at the mutating call
+        track = isinstance(s.iter, (ast.Name, ast.Attribute, ast.Subscript))
+        if track:
+            self._iterating.append(self.site(s.iter))
+        try:
+            return self._st_For(s)
+        finally:
+            if track:
+                self._iterating.pop()
+
+    def _st_For(self, s):
         it = self.deopt(self.ev(s.iter), self.site(s.iter))
         # concrete python iterables: unroll
         if isinstance(it, (tuple, list, frozenset, set)):
@@ -1749,6 +1762,9 @@ class Ex:
             raise Unsupported(f"method {name} on opaque {recv.kind}")
         from . import builtins_model
 
+        if name in self.MUTATORS and isinstance(node, ast.Call) and isinstance(node.func, ast.Attribute) and self.site(node.func.value) in self._iterating:
+            self.oblige(f"no-mutation-while-iterating[{self.site(node)}: the collection being walked by the enclosing for-loop is changed in its body (the iterator skips / repeats elements, or raises RuntimeError)]",
+                        False, kind="safety", site=self.site(node))
         return builtins_model.method(self, recv, name, args, kwargs, node)
 
     def call_global(self, dotted, args, kwargs, node):
